@@ -207,6 +207,20 @@ def run(ck, F):
     expect('ipr::Transfer', 'linkage', 'this.first()')
     expect('ipr::Transfer', 'convention', 'this.second()')
     eqrule.check_equalities(ck, F, 'C15')
+    eqrule.check_inequalities(ck, F, 'C15')
+    # equality of logograms / conventions / linkages / transfers is identity of the String spelled: it holds exactly for equal
+    # spellings only if equal spellings are one String -- including the empty spelling, which the built-in natural convention uses
+    import words
+    R_sp = ck.rule('C15.one-string-per-spelling', 'the value equalities bottom out in the identity of a String: interning answers the '
+                   'empty spelling with the one process-wide empty String and a reserved spelling with its reserved-word node, so that '
+                   'values spelled alike by the library and by the client compare equal', floor=2)
+    ok, why, fi = words.empty_word_outcome(F)
+    ck.check(R_sp, 'intern(empty word)', ok, f'{fi["id"]}: {why}: a logogram / convention spelled "" by the client is not equal to the '
+             'library\'s own ""-spelled constant', loc=fi['loc'], fn=fi['id'])
+    rts = words.spelling_routes(F, fi['id'], lambda fid: F.fn.get(fid) is None or F.fn[fid]['name'] in ('word_if_known', 'make_string'))
+    bad = [(w, [x.decode('utf-8', 'replace') for x in ps[:3]]) for w, ps, _s in rts if ps]
+    ck.check(R_sp, 'intern(reserved word)', bool(rts) and not bad, f'{fi["id"]}: the reserved spelling(s) {[b[1] for b in bad]} get a second String',
+             loc=fi['loc'], fn=fi['id'])
     # named aliases of the interface: each forwards to a slot accessor (recorded; judged in C02 through contracts)
 
 
